@@ -24,7 +24,9 @@ def main():
     for name in names:
         wt = tempfile.mkdtemp(prefix="mm-%s-" % name)
         os.rmdir(wt)
-        subprocess.check_call(["git", "-C", "/repo", "worktree", "add", "-q", "--detach", wt, "HEAD"])
+        meta = json.load(open(os.path.join(ROOT, "seeded", name, "meta.json")))
+        # a change whose trigger was removed by a later fix: commit is applied to the commit it was confirmed against
+        subprocess.check_call(["git", "-C", "/repo", "worktree", "add", "-q", "--detach", wt, meta.get("base", "HEAD")])
         try:
             subprocess.check_call(["git", "-C", wt, "apply", os.path.join(ROOT, "seeded", name, "patch.diff")])
             row = {}
